@@ -27,10 +27,16 @@ def main():
             open(p, "w").write(s.replace(old, new))
             rb = sh(["/verif/tools/baseline.py", wt])
             entry = {"file": rel, "repo_head": head, "baseline_ok": rb.returncode == 0, "checks": {}}
+            mod = os.path.basename(rel)[:-3]
+            tasks = None if mod == "util" else ",".join(sorted(set([mod, "beat", "onset"])))
+            entry["generic_checks_restricted_to_tasks"] = tasks or "all"
             for c in checks:
                 if not os.path.exists("/verif/props/%s.py" % c):
                     continue
-                r = sh(["/verif/check", c, "--tier", "quick"], env=dict(os.environ, VERIF_REPO=wt))
+                env = dict(os.environ, VERIF_REPO=wt)
+                if tasks and c in ("C01", "C02", "C04", "C06", "C07", "C08", "C14"):
+                    env["VERIF_TASKS"] = tasks          # development aid: only the adapters of the mutated module
+                r = sh(["/verif/check", c, "--tier", "quick"], env=env)
                 det = [l.strip() for l in r.stderr.splitlines() if l.strip().startswith("violation ")]
                 entry["checks"][c] = {"exit": r.returncode, "first": det[0][:300] if det else ""}
             entry["caught_by"] = [c for c, v in entry["checks"].items() if v["exit"] == 1]
